@@ -96,16 +96,43 @@ char *event_mm_strdup_(const char *str)
 	ln = strlen(str);
 	p = vp_str_obj(ln + 1);
 	vp_last_alloc_req = ln + 1; vp_last_alloc_ptr = p;
+#ifdef VP_ALLOC_EXACT
 	for (i = 0; i < VP_STR_OBJ; i++)
 		if (i <= ln) p[i] = str[i];
+#else
+	{
+		/* the bytes behind the terminator are zero (not nondeterministic): when the source array ends in
+		 * concrete zeros the copy does too, and symex bounds the string loops of the code under test by
+		 * constant propagation instead of exploring them up to the unwinding limit */
+		size_t avail = (size_t)__CPROVER_OBJECT_SIZE(str) - (size_t)__CPROVER_POINTER_OFFSET(str);
+		for (i = 0; i < VP_STR_OBJ; i++)
+			p[i] = (i < avail && i <= ln) ? str[i] : 0;
+	}
+#endif
 	return p;
 }
+/* realloc of a string object created by mm_malloc/mm_strdup/mm_realloc (literal-size mode only) */
 void *event_mm_realloc_(void *ptr, size_t sz)
 {
-	VP_ASSERT(0, "http_stralloc: mm_realloc is not reached by the C28-C30 harnesses");
+#ifdef VP_ALLOC_EXACT
+	VP_ASSERT(0, "http_stralloc: mm_realloc is not modelled in exact-size mode");
 	__CPROVER_assume(0);
 	(void)ptr; (void)sz;
 	return NULL;
+#else
+	char *p;
+	size_t i;
+	if (sz == 0) { if (ptr) { vp_free_calls++; free(ptr); } return NULL; }
+	if (vp_alloc_should_fail()) return NULL;
+	if (!ptr) vp_alloc_calls++;
+	p = vp_str_obj(sz);
+	vp_last_alloc_req = sz; vp_last_alloc_ptr = p;
+	if (ptr) {
+		for (i = 0; i < VP_STR_OBJ; i++) p[i] = ((char *)ptr)[i];
+		free(ptr);
+	}
+	return p;
+#endif
 }
 void event_mm_free_(void *p) { vp_free_calls++; free(p); }
 #endif
